@@ -1309,8 +1309,8 @@ class BaseGaussianState(BaseState):
         if len(modes) != len(set(modes)):
             raise ValueError("There can be no duplicates in the modes specified.")
 
-        mu = self.means()
-        cov = self.cov()
+        # the parity of the requested modes only depends on their reduced state
+        mu, cov = self.reduced_gaussian(sorted(modes))
         num = np.exp(-(0.5) * (mu @ (np.linalg.inv(cov) @ mu)))
         parity = ((self.hbar / 2) ** len(modes)) * num / (np.sqrt(np.linalg.det(cov)))
 
